@@ -215,6 +215,8 @@ def run_case(job):
                         found_plain = True
                     break
                 res['spurious'] += 1
+                if len(res.setdefault('spurious_examples', [])) < 3:
+                    res['spurious_examples'].append({'query': str(q)[:1500], 'inputs': spec.enc(inp_c), 'replay': rr})
                 e.solver.add(blocking_clause(inp, m))
             else:
                 info['cands'].append(('undecided', None, {'detail': 'only spurious witnesses in 6 tries'}))
